@@ -390,6 +390,8 @@ HIST_SPECS = [
     {"N": (2,), "body": (("S", (1,)), ("BS", (0, 1))), "T": 3, "shift": "default", "meas": "MHom"},
     {"N": (3,), "body": (("S", (2,)), ("BS", (1, 2)), ("R", (2,))), "T": 2, "shift": "default", "meas": "MHom"},
     {"N": (1, 2), "body": (("S", (2,)), ("BS", (1, 2)), ("BS", (0, 2))), "T": 2, "shift": "default", "meas": "MHom"},
+    # a gate that the engine has to decompose before it can run (and whose decomposition carries an expression of the loop variable)
+    {"N": (2,), "body": (("S", (1,)), ("X", (0,)), ("BS", (0, 1))), "T": 2, "shift": "default", "meas": "MHom"},
 ]
 
 
@@ -471,8 +473,7 @@ def hist_step(si, prog, mode, locked, ev, res, case):
     if ev[0] in ("run", "run_space"):
         # running must leave the user's program as it was handed over (rolled stays rolled, unrolled stays unrolled)
         want_space = ev[0] == "run_space"
-        if want_space and isinstance(mode, tuple) and mode[0] == "unroll":
-            return True, mode, locked  # not explored: the engine would have to convert the user's unrolling
+        from_unrolled_space = want_space and isinstance(mode, tuple) and mode[0] == "unroll"
         if not want_space and isinstance(mode, tuple) and mode[0] == "space":
             return True, mode, locked  # a space-unrolled program is run as space-unrolled: covered by run_space
         shots_eff = ev[1]
@@ -488,6 +489,8 @@ def hist_step(si, prog, mode, locked, ev, res, case):
                     res.violation(f"C13|history|run-shape|{tag}", f"{ev} in mode {mode}: samples shape {S.shape}", case)
                     return False, mode, locked
         except Exception as e:
+            if from_unrolled_space and isinstance(e, ValueError):
+                return True, mode, locked  # mixing the two unrollings without roll() may be refused (documented)
             res.violation(f"C13|history|run-raises|{tag}|from-{mode if isinstance(mode, str) else mode[0]}", f"{ev} in mode {mode} raised {type(e).__name__}: {e}", case)
             return False, mode, locked
         locked = True
